@@ -599,6 +599,96 @@ def check_sr_batch(ctx, c):
                       c, expected=first[bad[0]], observed=second[bad[0]], obligation=ob, extra={"differing_calls": bad[:20]})
 
 
+
+def gen_configured(g):
+    return {"kind": "configured", "init": g.choice(["uniform", "normal", "bernoulli", "random_sparse"]),
+            "seed": g.choice([0, 1, 42, 12345]), "other_seed": g.choice([2, 7, 5555]), "n": g.choice([12, 20]),
+            "other_kw": g.choice([{"connectivity": 0.2}, {"sr": 0.5}, {"connectivity": 0.5, "input_scaling": 3.0}, {"degree": 2}])}
+
+
+def check_configured(ctx, c):
+    """ONE partially configured initialiser object, called several times: a seeded call is a function of its own
+    arguments - not of the keyword arguments (seed, connectivity, sr, ...) an earlier call of the same object received -
+    and its unseeded calls follow the global seed"""
+    import reservoirpy as rpy
+    from reservoirpy import mat_gen
+    ob = "configured_initialiser"
+    ctx.count(c, nontrivial=True, obligation=ob)
+    ctx.stat("configured initialiser")
+    n = c["n"]
+    conf = {"uniform": {"high": 0.5}, "normal": {"scale": 0.5}, "bernoulli": {"p": 0.3}, "random_sparse": {"dist": "uniform"}}[c["init"]]
+    try:
+        with np.errstate(all="ignore"):
+            init = getattr(mat_gen, c["init"])(**conf)
+            fresh = digest(getattr(mat_gen, c["init"])(**conf)(n, n, seed=c["seed"]))
+            a = digest(init(n, n, seed=c["seed"]))
+            init(n, n, seed=c["other_seed"], **c["other_kw"])
+            b = digest(init(n, n, seed=c["seed"]))
+            rpy.set_seed(1)
+            u1 = digest(init(n, n))
+            rpy.set_seed(2)
+            u2 = digest(init(n, n))
+            rpy.set_seed(1)
+            u1b = digest(init(n, n))
+    except Exception as e:  # noqa
+        ctx.violation(f"calling a configured initialiser raised {type(e).__name__}: {e}", c, obligation=ob)
+        return
+    finally:
+        rpy.set_seed(5555)
+    what = None
+    if a != fresh:
+        what = "the first seeded call of a configured initialiser differs from the same call on a freshly configured one"
+    elif b != a:
+        what = (f"{c['init']}(**{conf})(n, n, seed={c['seed']}) returned other bits after an unrelated call of the same object with "
+                f"seed={c['other_seed']} and {c['other_kw']}: keyword arguments of one call stick to the object")
+    elif u1 == u2:
+        what = "unseeded calls of a configured initialiser after set_seed(1) and set_seed(2) are identical (a seed of an earlier call stuck)"
+    elif u1 != u1b:
+        what = "unseeded calls of a configured initialiser after set_seed(1) differ between two repetitions"
+    if what:
+        ctx.violation(what, c, obligation=ob)
+
+
+
+def check_sklearn_shared(ctx, c):
+    """two scikit-learn readouts built from the SAME hyper-parameter dictionary (seed injected by the library from the global
+    generator, or a RandomState object supplied by the user): what the second one learns is a function of its own seed and
+    data, not of whether the first one was fitted before it"""
+    import reservoirpy as rpy
+    from reservoirpy.nodes import ScikitLearnNode
+    from sklearn.linear_model import SGDRegressor
+    ob = "sklearn_shared_hypers"
+    ctx.count(c, nontrivial=True, obligation=ob)
+    ctx.stat("sklearn readouts sharing their hyper-parameters")
+    X1, X2 = named_input("d0", 30, 3), named_input("d1", 30, 3)
+    Y1 = X1 @ np.array([[1.0], [-2.0], [0.5]]) + 0.1 * named_input("d0n", 30, 1)
+    Y2 = X2 @ np.array([[0.5], [1.0], [-1.0]]) + 0.1 * named_input("d1n", 30, 1)
+
+    def pair():
+        rpy.set_seed(c["seed"])
+        hyp = {"max_iter": 20, "tol": None}
+        if c["explicit"]:
+            hyp["random_state"] = np.random.RandomState(c["seed"] + 7)
+        return ScikitLearnNode(SGDRegressor, model_hypers=hyp), ScikitLearnNode(SGDRegressor, model_hypers=hyp)
+    try:
+        n1, n2 = pair()
+        n1.fit(X1, Y1)
+        n2.fit(X2, Y2)
+        pa = digest(n2.run(X2))
+        n1, n2 = pair()
+        n2.fit(X2, Y2)
+        pb = digest(n2.run(X2))
+    except Exception as e:  # noqa
+        ctx.violation(f"scikit-learn readouts built from one hyper-parameter dictionary raised {type(e).__name__}: {e}", c, obligation=ob)
+        return
+    finally:
+        rpy.set_seed(5555)
+    if pa != pb:
+        ctx.violation("two SGDRegressor readouts built from one hyper-parameter dictionary "
+                      f"({'RandomState supplied by the user' if c['explicit'] else 'seed injected from the global generator'}): what the second "
+                      "one learns depends on whether the first one was fitted before it (they share one random state)", c, obligation=ob)
+
+
 def check_cases(ctx, cases):
     common.quiet()
     for c in cases:
@@ -606,6 +696,10 @@ def check_cases(ctx, cases):
             check_process(ctx, c)
         elif c["kind"] == "sr_batch":
             check_sr_batch(ctx, c)
+        elif c["kind"] == "configured":
+            check_configured(ctx, c)
+        elif c["kind"] == "sklearn_shared":
+            check_sklearn_shared(ctx, c)
         else:
             check_scenario(ctx, c)
 
@@ -624,6 +718,8 @@ def run(ctx):
         cases.append({"kind": "process", "p": {"seed": g.choice([0, 1, 7, 5555]), "units": g.choice([20, 30]), "noise": g.choice([0.0, 0.01]),
                                                 "fb": g.chance(0.5), "pre": g.randint(1, 4)}})
     cases += [gen_sr_batch(g, 150) for _ in range(ctx.n(3, 15))]
+    cases += [gen_configured(g) for _ in range(ctx.n(12, 100))]
+    cases += [{"kind": "sklearn_shared", "seed": g.choice([0, 1, 42]), "explicit": bool(i % 2)} for i in range(ctx.n(4, 20))]
     check_cases(ctx, cases)
 
 
